@@ -97,7 +97,7 @@ fn replay_body(path: &str) {
                                                  "attrs": f.attrs.iter().filter(|a| !a.path().is_ident("f")).map(toks).collect::<Vec<_>>()});
         match &di.data {
             syn::Data::Struct(s) => {
-                for f in s.fields.iter() { for i in 0..16 { runs += 1; check_member(format!("BF{}", i), body_gen::body_field(i, f), &fld_want(f), &mut why); } }
+                for f in s.fields.iter() { for i in 0..32 { runs += 1; check_member(format!("BF{}", i), body_gen::body_field(i, f), &fld_want(f), &mut why); } }
                 // Fields::try_from + to_tokens round trip (up to a trailing comma)
                 if let Ok(fs) = darling::ast::Fields::<syn::Field>::try_from(&s.fields) {
                     let a = norm(&toks(&fs));
@@ -120,7 +120,7 @@ fn replay_body(path: &str) {
         for tp in di.generics.type_params() {
             let w = json!({"ident": tp.ident.to_string(), "bounds": tp.bounds.iter().map(toks).collect::<Vec<_>>(), "default": tp.default.as_ref().map(toks),
                            "attrs": tp.attrs.iter().filter(|a| !a.path().is_ident("f")).map(toks).collect::<Vec<_>>()});
-            for i in 0..16 { runs += 1; check_member(format!("BT{}", i), body_gen::body_tparam(i, tp), &w, &mut why); }
+            for i in 0..32 { runs += 1; check_member(format!("BT{}", i), body_gen::body_tparam(i, tp), &w, &mut why); }
         }
         if !why.is_empty() {
             nprop += 1;
